@@ -242,6 +242,8 @@ func checkC06(c *Ctx) *report.Result {
 		r.Ob("B-ones", iv != nil && len(bad) == 0 && len(ev.Undecided) == 0, fmt.Sprintf("%s (%04X) unused bits from any state", reg.Name, reg.Addr), hposOf(c, ev), fmt.Sprintf("reads %s; documented mask %02X always 1: %s %v", ai.ValueString(ev.Result), reg.Ones, strings.Join(bad, "; "), ev.Undecided))
 	}
 	c.checkLatchOwnership(r)
+	r.Rule("B-wave", "FF30-FF3F read back what was written while channel 3 is off, whether sound is powered or not (rule M-wave of C18 re-stated)")
+	adopt(r, c.sibling("C18"), map[string]string{"M-wave": "B-wave"}, "wave RAM is sixteen readable and writable registers of the I/O area: a write that is dropped, or lands elsewhere, breaks the read-back clause")
 	r.Rule("B-oamplain", "OAM is plain memory outside the OAM-bug window: the window flag is closed whenever the LCD is off or the PPU is outside mode 2 (rules O-pair / O-arm of C17 re-stated)")
 	adopt(r, c.sibling("C17"), map[string]string{"O-pair": "B-oamplain", "O-arm": "B-oamplain"}, "with the window left open a CPU access to FE00-FEFF rewrites other OAM rows, so OAM does not read back what was written")
 	return r
